@@ -5,6 +5,7 @@ package flyt
 import (
 	"context"
 	"errors"
+	"fmt"
 )
 
 // C05 — cancellation stops runs and flows and is reported as such.
@@ -75,6 +76,11 @@ func (n *c05Probe) Exec(ctx context.Context, p any) (any, error) {
 				vCover("cancel-in-failing-attempt")
 			} else {
 				vCover("cancel-in-last-failing-attempt")
+			}
+			if vNondet[bool]("attemptFailsWithATimeoutError") {
+				// ... or a socket-style timeout error of its own (Timeout() == true, no context error inside)
+				vCover("attempt-returns-a-timeout-error")
+				return nil, fmt.Errorf("fetch: %w", vTimeoutErr{})
 			}
 			if vNondet[bool]("attemptFailsWithTheContextsError") {
 				// the usual way to fail under cancellation: give up and hand back ctx.Err()
